@@ -1099,6 +1099,10 @@ func (g *G) gepGlobals() {
 		t := base.T
 		vlen := uint64(0)
 		nidx := g.rng("ncgepidx", 1, 4)
+		if g.chance("cgepnoidx", 1, 10) {
+			nidx = 0
+			g.feat("gep/no-index-constant")
+		}
 		for i := 0; i < nidx; i++ {
 			gi := am.GEPIndex{}
 			var c *am.Const
